@@ -624,7 +624,9 @@ fn extract_fn(file: &File, req: &ItemReq, resp: &mut ItemResp) -> std::result::R
         let mut lap = LoopAnchorPlacer { by_loop, placed: &mut placed, errors: &mut errors };
         lap.visit_block_mut(&mut block);
     }
-    place_anchors_in_block(&mut block, &fn_anchors, &mut placed, &mut errors, false);
+    // a function returning `()` may have statements after its last (block-like) expression
+    let unit_ret = matches!(found.sig.output, ReturnType::Default);
+    place_anchors_in_block(&mut block, &fn_anchors, &mut placed, &mut errors, unit_ret);
     for a in &req.anchors {
         if !placed.contains(&a.name) && errors.is_empty() {
             errors.push(format!("lost anchor `{}`", a.name));
